@@ -62,7 +62,13 @@ def main():
         for p in fired + undec:
             print("      ", p, res[p].splitlines()[1].strip()[:200] if len(res[p].splitlines()) > 1 else res[p][:200])
         summary[name] = {"target": target, "verdict": verdict, "fired": fired, "undecided": undec, "detail": {p: res[p] for p in fired + undec}}
-    (SEEDED / "RESULTS.json").write_text(json.dumps(summary, indent=1))
+    out = SEEDED / "RESULTS.json"
+    if [a for a in sys.argv[1:] if not a.startswith("--")] and out.exists():
+        # a partial run updates the entries it evaluated and keeps the others
+        old = json.loads(out.read_text())
+        old.update(summary)
+        summary = {k: old[k] for k in sorted(old) if (SEEDED / k / "patch.diff").exists()}
+    out.write_text(json.dumps(summary, indent=1))
 
 
 if __name__ == "__main__":
